@@ -1,4 +1,4 @@
-\* (D) algebra, quick tier: 3 267 reactions with 1-2 species per side (coefficient pairs (1/4,1) (1,2) (2,1/4) (1,1)), TS none/1/2,
+\* (D) algebra, quick tier: 3 888 reactions with 1-2 species per side (single species with 1/4, 1, 3/2, 2; coefficient pairs (1/4,1) (1,2) (2,1/4) (1,1)), TS none/1/2,
 \* three caller dictionaries, every public call once
 SPECIFICATION Spec
 CONSTANTS
